@@ -11,7 +11,7 @@ import time
 from .. import build as B
 from .. import engine as E
 from ..oracle import MODES, MODE_INDEX, DEFAULT_MODE
-from . import c02, c03, c04, c05, c11
+from . import c02, c03, c04, c05, c11, c12, c13
 
 ID = "C19"
 TITLE = "The default rounding mode is per thread and starts as HalfEven"
@@ -35,9 +35,12 @@ BATTERY = [
     "mul vv D5:1 D1:18", "mul vv D-5:1 D1:18", "mul vv D1000000000000000005:18 D1000000000000000005:18",
     "mul vv D-3:1 D1:18", "div vv D1:18 D2:0", "div vv D-1:18 D2:0", "div vv D1:0 D3:0", "div vv D-2:0 D3:0",
     "quant vv D125:2 D5:1", "quant vv D-101:2 u8:2",
+    "divr vv D1:18 D1000000000000000000000:0 0", "divr vv D-1:18 D1000000000000000000000:0 0",
+    "divr vv D3:0 D-4:0 1", "divr vv D1:0 D-4:0 2", "tof64 D1:1", "fromf64 4599075939470750515",
     "fmt none - 1 D25:2", "fmt none - 0 D-15:1", "fmt plus 8 1 D-205:2", "fmt none - 1 D-21:2", "fmt zero 6 0 D26:1",
 ]
-OWNER = {"round": c05, "cround": c05, "divr": c04, "mulr": c04, "quant": c04, "mul": c02, "div": c03, "fmt": c11}
+OWNER = {"round": c05, "cround": c05, "divr": c04, "mulr": c04, "quant": c04, "mul": c02, "div": c03, "fmt": c11,
+         "tof64": c12, "fromf64": c13}
 
 
 def expected_fingerprint(mode):
@@ -101,6 +104,48 @@ def make_spec(rng, n_main, steps_per_thread, depth=2, batteries=3, sleeps=True, 
         return sid
 
     mains = [script(0) for _ in range(n_main)]
+    for sid, steps in scripts.items():
+        lines.append("script %s %s" % (sid, " ".join(steps)))
+    lines.append("main " + " ".join(mains))
+    return "\n".join(lines) + "\n", bats
+
+
+def make_swarm_spec(rng, n_workers, n_watchers):
+    """Hundreds of short-lived threads that set a non-default mode and exit, plus long-lived watcher threads
+    that keep checking their own mode (thread-count dependent state, leaked per-thread bookkeeping)."""
+    lines = []
+    small = ["round D25:1 0", "round D-205:2 1", "divr vv D1:0 D8:0 2", "mul vv D-5:1 D1:18", "fmt none - 1 D-21:2"]
+    bats = {"b0": list(BATTERY), "bs": small}
+    for bid, reqs in bats.items():
+        for r in reqs:
+            lines.append("battery %s %s" % (bid, r))
+    scripts = {}
+    mains = []
+    for i in range(n_watchers):
+        m = rng.choice([x for x in MODES if x != DEFAULT_MODE])
+        steps = ["get", "set:%s" % m]
+        for _ in range(60):
+            steps += ["run:bs", "sleep:%d" % rng.randrange(100, 600), "get"]
+        steps += ["run:b0"]
+        scripts["w%d" % i] = steps
+        mains.append("w%d" % i)
+    # spawner threads create the workers in waves, so that only some of them are alive at a time
+    per_spawner = 25
+    n_spawners = (n_workers + per_spawner - 1) // per_spawner
+    wk = 0
+    for j in range(n_spawners):
+        steps = ["get"]
+        for _ in range(per_spawner):
+            m = rng.choice(MODES)
+            sid = "k%d" % wk
+            wk += 1
+            scripts[sid] = ["get", "run:bs", "set:%s" % m, "run:bs", "get"] + (["set:RoundHalfEven"] if rng.random() < 0.2 else [])
+            steps += ["spawn:%s" % sid]
+            if rng.random() < 0.3:
+                steps += ["join"]
+        steps += ["join", "run:bs"]
+        scripts["p%d" % j] = steps
+        mains.append("p%d" % j)
     for sid, steps in scripts.items():
         lines.append("script %s %s" % (sid, " ".join(steps)))
     lines.append("main " + " ".join(mains))
@@ -245,6 +290,17 @@ def main(tier, seed):
             account(name, res, spec)
             if not samples:
                 samples = [l for l in p.stdout.split("\n")[:400] if " op " in l][:3] + [l for l in p.stdout.split("\n")[:200] if " set " in l][:2]
+        # a swarm of short-lived threads (more than 256 custom-mode threads come and go) next to long-lived watchers
+        spec_text, bats = make_swarm_spec(rng, 600 if tier == "quick" else 2000, 4)
+        name = "swarm-%s" % profile
+        try:
+            p, spec = run_native(binary, spec_text, wdir, name)
+            if p.returncode != 0:
+                errors.append("%s exited with %d: %s" % (name, p.returncode, p.stderr[-300:]))
+            else:
+                account(name, check_log(p.stdout, bats, name), spec)
+        except subprocess.TimeoutExpired:
+            errors.append("watchdog: %s" % name)
     phase = {"native": round(time.time() - t0, 1)}
     # 2. Miri, different scheduler seeds
     n_seeds = 8 if tier == "quick" else 64
